@@ -19,6 +19,7 @@ import (
 	"time"
 
 	"github.com/AdguardTeam/AdGuardDNS/internal/agd"
+	"github.com/AdguardTeam/AdGuardDNS/internal/agdpasswd"
 	"github.com/AdguardTeam/AdGuardDNS/internal/profiledb/internal"
 	"github.com/AdguardTeam/AdGuardDNS/internal/profiledb/internal/filecachepb"
 	"github.com/AdguardTeam/golibs/logutil/slogutil"
@@ -118,13 +119,20 @@ func (w *vc14rtWorld) owner(k vc14rtKey) (p *vc14rtProfSpec, d *vc14rtDevSpec) {
 	return nil, nil
 }
 
+// vc14rtFullSyncIvl is longer than the age of any synchronisation point the
+// harness uses (they are in 2023) and shorter than what time.Since reports for
+// the zero time (it saturates at about 292 years).
+const vc14rtFullSyncIvl = 1_000_000 * time.Hour
+
 func TestVerifC14rtRestart(t *testing.T) {
 	st := vstat.New("C14", "profiledb.restart",
-		"rapid histories of backend snapshots (fresh ones and near misses of the previous one: one device moved, one key changed or swapped, one setting changed), starting from a missing / unreadable / truncated / other-version cache file, with full syncs whose store fails, a drawn subset of the records is used (access verdicts, rate limiter, schedule, authentication) before it is synchronised and stored, partial and full synchronisations of a profiledb.Default with a real *.pb cache file and lookups; after every full sync a second Default is opened on the file and all lookups by device id, human id, linked ip and dedicated ip are compared with the running database and with the snapshot (identity and every setting); the restarted database may take over and continue with partial syncs; non-trivial = a restart check where the file was overwritten by a later full sync or partial syncs preceded it; distinct by history",
+		"rapid histories of backend snapshots (fresh ones and near misses of the previous one: one device moved, one key changed or swapped, one setting changed), starting from a missing / unreadable / truncated / other-version cache file, with full syncs whose store fails, a drawn subset of the records is used (access verdicts, rate limiter, schedule, authentication) before it is synchronised and stored, partial and full synchronisations of a profiledb.Default with a real *.pb cache file and lookups; the backend may also have profiles but no devices at all, or no profiles; after every full sync a second Default is opened on the file, its own first refresh (against a backend that answers a zero sync time with everything and any other with the changes since then) and CreateAutoDevice are checked too, and all lookups by device id, human id, linked ip and dedicated ip are compared with the running database and with the snapshot (identity and every setting); the restarted database may take over and continue with partial syncs; non-trivial = a restart check where the file was overwritten by a later full sync or partial syncs preceded it; distinct by history",
 		"restart-after-partial-syncs", "restart-of-overwritten-file", "restarted-db-continues-with-partial-sync",
 		"key-changed-owner-between-full-syncs", "found-by-dev", "found-by-linked", "found-by-ded", "found-by-human", "not-found",
 		"used-before-store", "used-before-store-with-domain-rules", "device-used-before-store",
-		"restart-after-near-miss-change", "start-from-unreadable-file", "start-from-other-version-file", "store-failed", "zoned-ipv6-key")
+		"restart-after-near-miss-change", "start-from-unreadable-file", "start-from-other-version-file", "store-failed", "zoned-ipv6-key",
+		"restart-from-cache-without-devices", "restart-from-cache-without-profiles", "restarted-db-first-refresh-full",
+		"restarted-db-first-refresh-incremental", "auto-device-created-after-restart")
 	st.Finish(t)
 	vc14rtNeedZones(t)
 
@@ -161,7 +169,11 @@ func TestVerifC14rtRestart(t *testing.T) {
 				ErrColl:              vc14rtErrColl{},
 				Metrics:              EmptyMetrics{},
 				CacheFilePath:        path,
-				FullSyncIvl:          time.Hour,
+				// Longer than the age of every synchronisation point used
+				// here: a database that adopted the cache's sync point is
+				// "within the full-sync interval" and refreshes incrementally
+				// (no wall-clock dependence of the inputs).
+				FullSyncIvl:          vc14rtFullSyncIvl,
 				FullSyncRetryIvl:     time.Hour,
 				ResponseSizeEstimate: est,
 			})
@@ -336,6 +348,7 @@ func TestVerifC14rtRestart(t *testing.T) {
 				fail("restarted database: synchronisation point %v is later than the stored one %v", db2.syncTime, respTime)
 			}
 
+			degenerate := len(world.Profs) == 0 || len(world.Devs) == 0
 			seenP := map[*agd.Profile]bool{}
 			seenD := map[*agd.Device]bool{}
 			nilHash := 0
@@ -394,7 +407,11 @@ func TestVerifC14rtRestart(t *testing.T) {
 				p2, d2, err2 := vc14rtLookup(ctx, db2, k)
 				check("running database", k, p1, d1, err1)
 				check("restarted database", k, p2, d2, err2)
-				if errors.Is(err1, ErrProfileNotFound) != errors.Is(err2, ErrProfileNotFound) {
+				// A cache without profiles or without devices is deliberately
+				// not loaded (loadFileCache: "cache is empty"): then the
+				// restarted database knows no profile until its first refresh,
+				// which is checked below.
+				if !degenerate && errors.Is(err1, ErrProfileNotFound) != errors.Is(err2, ErrProfileNotFound) {
 					fail("%s: running database says %v, restarted one says %v", k, err1, err2)
 				}
 
@@ -441,19 +458,145 @@ func TestVerifC14rtRestart(t *testing.T) {
 
 			tweaked = false
 
+			// The restarted database's FIRST refresh, decided by the database
+			// itself.  The backend is modelled faithfully: everything for a
+			// full request (zero sync time), only what changed since the
+			// request's sync time otherwise -- nothing changed since the cache
+			// was written.  Afterwards the database must answer as the backend
+			// state says: a database that loaded nothing from the file must
+			// therefore ask for everything.
+			sync2 := lastSync
+			if degenerate || rapid.Bool().Draw(t, "firstRefresh") {
+				loadedNothing := len(db2.profiles) == 0
+				seq++
+				resp2 := time.Unix(int64(1_700_000_000+seq), 0)
+				var reqTime time.Time
+				calls := 0
+				stor.next = func(req *StorageProfilesRequest) (*StorageProfilesResponse, error) {
+					calls++
+					reqTime = req.SyncTime
+					resp := &StorageProfilesResponse{SyncTime: resp2}
+					if req.SyncTime.IsZero() {
+						resp.Profiles, resp.Devices = world.build(est)
+					}
+
+					return resp, nil
+				}
+				err := db2.Refresh(ctx)
+				stor.next = nil
+				hist = append(hist, fmt.Sprintf("restarted database refreshes (asked for changes since %v)", reqTime))
+				if err != nil || calls != 1 {
+					fail("restarted database: first Refresh: %v (%d storage calls)", err, calls)
+				}
+
+				if loadedNothing && !reqTime.IsZero() {
+					fail("the restarted database loaded nothing from the cache file (%d profiles, %d devices stored) but its first refresh asked only for the changes since %v: everything unchanged since then stays unknown\nsnapshot: %s",
+						len(world.Profs), len(world.Devs), reqTime, vc14rtDescribe(world))
+				}
+
+				if !reqTime.IsZero() && !reqTime.Equal(respTime) {
+					fail("the restarted database's first refresh asked for changes since %v, the stored synchronisation point is %v", reqTime, respTime)
+				}
+
+				for _, k := range keys {
+					p2, d2, err2 := vc14rtLookup(ctx, db2, k)
+					check("restarted database after its first refresh", k, p2, d2, err2)
+
+					// ProfileByHumanID: "It's important to check the profile and
+					// return ErrProfileNotFound here to prevent the device finder
+					// from trying to create a device for a profile that doesn't
+					// exist" -- and only then.
+					if k.Kind == "human" && err2 != nil && errors.Is(err2, ErrProfileNotFound) != (world.prof(k.Prof) == nil) {
+						fail("restarted database after its first refresh: %s: %v, but the profile exists on the backend: %t\nsnapshot: %s", k, err2, world.prof(k.Prof) != nil, vc14rtDescribe(world))
+					}
+				}
+
+				if nilHash > 0 && !st.Known(vc14rtFindingNilHash) {
+					fail("restarted database: nil Auth.PasswordHash after the first refresh")
+				}
+
+				sync2 = resp2
+				cl["restarted-db-first-refresh"] = true
+				if reqTime.IsZero() {
+					cl["restarted-db-first-refresh-full"] = true
+				} else {
+					cl["restarted-db-first-refresh-incremental"] = true
+				}
+
+				if len(world.Profs) == 0 {
+					cl["restart-from-cache-without-profiles"] = true
+				} else if len(world.Devs) == 0 {
+					cl["restart-from-cache-without-devices"] = true
+				}
+
+				// Automatic devices: a profile that exists and has them enabled
+				// must be usable right away, on both databases.
+				stor.auto = func(req *StorageCreateAutoDeviceRequest) (*StorageCreateAutoDeviceResponse, error) {
+					return &StorageCreateAutoDeviceResponse{Device: &agd.Device{
+						Auth:         &agd.AuthSettings{PasswordHash: agdpasswd.AllowAuthenticator{}},
+						ID:           "auto-1",
+						HumanIDLower: agd.HumanIDToLower(req.HumanID),
+					}}, nil
+				}
+				for _, pid := range vc14rtProfIDs {
+					wp := world.prof(pid)
+					for i, d := range []*Default{db, db2} {
+						which := []string{"running database", "restarted database after its first refresh"}[i]
+						p, dev, aerr := d.CreateAutoDevice(ctx, pid, "Auto-Dev", agd.DeviceTypeOther)
+						switch {
+						case wp != nil && wp.Auto:
+							if aerr != nil || p == nil || dev == nil || p.ID != pid {
+								fail("%s: CreateAutoDevice(%q): %v %v %v, want the profile (it exists and has automatic devices enabled)\nsnapshot: %s", which, pid, p, dev, aerr, vc14rtDescribe(world))
+							}
+
+							cl["auto-device-created-after-restart"] = true
+						default:
+							if !errors.Is(aerr, ErrProfileNotFound) {
+								fail("%s: CreateAutoDevice(%q): error %v, want profile-not-found (exists: %t)", which, pid, aerr, wp != nil)
+							}
+						}
+					}
+				}
+
+				stor.auto = nil
+			}
+
 			if rapid.Bool().Draw(t, "adopt") {
 				hist = append(hist, "the restarted database takes over")
 				db = db2
 				adopted = true
+				lastSync = sync2
 			}
 
 			prevFull = world
 			partialsSinceFull = 0
 		}
 
+		// drawWorld also yields backends with profiles but no devices at all
+		// (e.g. a young deployment relying on automatic devices) and with no
+		// profiles.
+		drawWorld := func() (w *vc14rtWorld) {
+			switch rapid.SampledFrom([]string{"normal", "normal", "normal", "normal", "normal", "no-devices", "no-devices", "no-profiles"}).Draw(t, "backendKind") {
+			case "no-devices":
+				w = vc14rtDrawWorld(t, 0, false)
+				w.Devs, w.TwinDevice = nil, ""
+				for _, p := range w.Profs {
+					p.DeviceIDs = nil
+				}
+
+				w.Profs[0].Auto = true
+			case "no-profiles":
+				w = &vc14rtWorld{}
+			default:
+				w = vc14rtDrawWorld(t, 1, false)
+			}
+
+			return w
+		}
+
 		fullAndVerify := func() {
 			if world == nil {
-				world = vc14rtDrawWorld(t, 1, false)
+				world = drawWorld()
 				hist = append(hist, "backend: "+vc14rtDescribe(world))
 			}
 
@@ -480,7 +623,7 @@ func TestVerifC14rtRestart(t *testing.T) {
 		for i := 0; i < steps; i++ {
 			switch rapid.SampledFrom([]string{"world", "tweak", "tweak", "partial", "partial", "full", "lookup", "storeFails"}).Draw(t, "op") {
 			case "world":
-				world = vc14rtDrawWorld(t, 1, false)
+				world = drawWorld()
 				tweaked = false
 				hist = append(hist, "backend: "+vc14rtDescribe(world))
 			case "tweak":
@@ -512,7 +655,7 @@ func TestVerifC14rtRestart(t *testing.T) {
 					prev = nil
 				}
 
-				world = vc14rtDrawWorld(t, 1, false)
+				world = drawWorld()
 				hist = append(hist, "backend: "+vc14rtDescribe(world), "cache directory removed, full sync")
 				if err := os.RemoveAll(cdir); err != nil {
 					t.Fatalf("harness: %v", err)
